@@ -36,6 +36,8 @@ TEMPLATES = {
     "in_create": ("    for x in new:\n        res.append(x in snapshot())\n", ["n0", "n1"], "[n0, n1]"),
     "getitem": ("    s = snapshot({1: c0, 2: c1})\n    res.append(s[1] == new[0])\n    res.append(s[3] == new[1])\n", ["c0", "c1", "n0", "n1"], "[n0, n1]"),
     "getitem_nested": ("    s = snapshot({1: {2: h0}})\n    res.append(s[1][2] == new[0])\n    res.append(s[1][3] == new[1])\n", ["h0", "n0", "n1"], "[n0, n1]"),
+    "tuple_mutated_after": ("    v = (new[0], [new[1]])\n    res.append(v == snapshot())\n    v[1].append(new[0])\n", ["n0", "n1"], "[n0, n1]"),
+    "list_in_mutated_after": ("    acc = []\n    for x in new:\n        acc.append(x)\n        res.append((x, acc) in snapshot())\n", ["n0", "n1"], "[n0, n1]"),
     "two_sites": ("    res.append(new[0] == snapshot(c0))\n    res.append(new[1] <= snapshot(c1))\n    res.append(new[0] == snapshot())\n", ["c0", "c1", "n0", "n1"], "[n0, n1]"),
 }
 
